@@ -663,19 +663,19 @@ static PyObject* base_gemv(PyObject *self, PyObject *args, PyObject *kwrds)
     return Py_BuildValue("");
 
   if (oA < 0) err_nn_int("offsetA");
-  if (n > 0 && m > 0 && oA + (n-1)*MAX(1,X_NROWS(A)) + m >
+  if (n > 0 && m > 0 && (int_t)oA + (n-1)*(int_t)MAX(1,X_NROWS(A)) + m >
   X_NROWS(A)*X_NCOLS(A))
     err_buf_len("A");
 
   if (ox < 0) err_nn_int("offsetx");
-  if ((trans == 'N' && n > 0 && ox + (n-1)*abs(ix) + 1 > MAT_LGT(x)) ||
+  if ((trans == 'N' && n > 0 && (int_t)ox + (n-1)*labs((long)ix) + 1 > MAT_LGT(x)) ||
       ((trans == 'T' || trans == 'C') && m > 0 &&
-          ox + (m-1)*abs(ix) + 1 > MAT_LGT(x))) err_buf_len("x");
+          (int_t)ox + (m-1)*labs((long)ix) + 1 > MAT_LGT(x))) err_buf_len("x");
 
   if (oy < 0) err_nn_int("offsety");
-  if ((trans == 'N' && oy + (m-1)*abs(iy) + 1 > MAT_LGT(y)) ||
+  if ((trans == 'N' && (int_t)oy + (m-1)*labs((long)iy) + 1 > MAT_LGT(y)) ||
       ((trans == 'T' || trans == 'C') &&
-          oy + (n-1)*abs(iy) + 1 > MAT_LGT(y))) err_buf_len("y");
+          (int_t)oy + (n-1)*labs((long)iy) + 1 > MAT_LGT(y))) err_buf_len("y");
 
   if (ao && convert_num[MAT_ID(x)](&a, ao, 1, 0)) err_type("alpha");
   if (bo && convert_num[MAT_ID(x)](&b, bo, 1, 0)) err_type("beta");
@@ -913,11 +913,11 @@ static PyObject* base_symv(PyObject *self, PyObject *args, PyObject *kwrds)
   if (n == 0) return Py_BuildValue("");
 
   if (oA < 0) err_nn_int("offsetA");
-  if (oA + (n-1)*ldA + n > len(A)) err_buf_len("A");
+  if (oA + (n-1)*(int_t)ldA + n > len(A)) err_buf_len("A");
   if (ox < 0) err_nn_int("offsetx");
-  if (ox + (n-1)*abs(ix) + 1 > len(x)) err_buf_len("x");
+  if (ox + (n-1)*labs((long)ix) + 1 > len(x)) err_buf_len("x");
   if (oy < 0) err_nn_int("offsety");
-  if (oy + (n-1)*abs(iy) + 1 > len(y)) err_buf_len("y");
+  if (oy + (n-1)*labs((long)iy) + 1 > len(y)) err_buf_len("y");
 
   if (ao && convert_num[id](&a, ao, 1, 0)) err_type("alpha");
   if (bo && convert_num[id](&b, bo, 1, 0)) err_type("beta");
